@@ -67,6 +67,13 @@ impl MqttSink {
         }
     }
 
+    #[cfg(ntex_mqtt_verif)]
+    #[doc(hidden)]
+    /// Verification hook: position the packet-id counter (next auto id is `val + 1`).
+    pub fn verif_set_next_id(&self, val: u16) {
+        self.0.verif_set_next_id(val);
+    }
+
     #[inline]
     /// Force close MQTT connection. Dispatcher does not wait for uncompleted
     /// responses (ending them with error), but it flushes buffers.
